@@ -3,6 +3,7 @@
 -/
 import CSD.Driver.Dict
 import CSD.Model.PFC
+import CSD.Model.PFCLoad
 import CSD.Model.Hash
 
 namespace CSD.Driver
@@ -17,6 +18,11 @@ def pfcModel (c : Case) : DictModel :=
     locate := fun q => PFC.locate d q          -- `none` prints `?`... a model fault must not pass silently:
     extract := fun i => PFC.extract d i
     image := PFC.save d
+    reload := some fun stream =>
+      match PFC.load stream with
+      | some (d', rest) =>
+        some (fun q => PFC.locate d' q, fun i => PFC.extract d' i, d'.elements, d'.maxlength, PFC.save d', rest)
+      | none => none
     exact := true }
 
 /-- `(uint)(elements * (1 + overhead / 100.0))`: exact for overheads that are multiples of 25
